@@ -175,6 +175,34 @@ func (st *state) buildVariants(r *prng.R) {
 	add("two-signers-swapped-witnesses", "witness", false, with(two(), func(x *xSpec) {
 		x.post = func(t *transaction.Transaction) { t.Scripts[0], t.Scripts[1] = t.Scripts[1], t.Scripts[0] }
 	}))
+	// class many-signers: n = 3..6 witnesses (single-signature, multi-signature, non-standard), network fee at the
+	// n-witness boundary: the GAS left for witness k is the fee part minus the cost of ALL witnesses before it
+	{
+		nonStd := xSigner{script: trueScript, scope: ce}
+		sixth := xSigner{vals: st.spec.k.committee(), scope: ce}
+		if !st.spec.k.multi {
+			sixth = sg(accP) // the single chain's committee is its validator set
+		}
+		sets := [][]xSigner{
+			{sg(accB), sg(accC), sg(accD)},
+			{sg(accB), sg(accC), {vals: st.v, scope: ce}, sg(accD)},
+			{sg(accB), nonStd, sg(accC), sg(accD), sg(accA)},
+			{sg(accB), sg(accC), sg(accD), sg(accA), sixth, nonStd},
+		}
+		for _, set := range sets {
+			set := set
+			n := len(set)
+			var firstNm2 int64
+			for _, x := range set[:n-2] {
+				firstNm2 += x.witCost()
+			}
+			mk := func(adj int64) xSpec { return with(base(accB), func(x *xSpec) { x.signers = set; x.netAdj = adj }) }
+			add(fmt.Sprintf("signers%d-net=exact", n), "ok", true, mk(0))
+			add(fmt.Sprintf("signers%d-net=exact-1", n), "witness", n <= 4, mk(-1))
+			add(fmt.Sprintf("signers%d-net=exact-half-first", n), "witness", true, mk(-set[0].witCost()/2))
+			add(fmt.Sprintf("signers%d-net=exact-first-n-2+1", n), "witness", n <= 4, mk(-firstNm2+1))
+		}
+	}
 	// attributes
 	hp := attr(transaction.HighPriority, nil)
 	add("hp-no-committee", "invalid-attr", true, with(base(accB), func(x *xSpec) { x.attrs = []transaction.Attribute{hp} }))
